@@ -7,6 +7,7 @@ import (
 	"math"
 	"math/rand"
 	"reflect"
+	"strconv"
 	"strings"
 	"unicode/utf8"
 
@@ -382,6 +383,20 @@ func fmtdiffDrive(args []string) {
 					continue
 				}
 				jobs = append(jobs, job{"%" + fl + v, i})
+			}
+		}
+	}
+	// every width and precision 0..300 (tables of padding bytes, scratch buffers and digit counts have their edges
+	// somewhere in there) and a few larger ones, on every seventh value of the universe
+	var ns []string
+	for n := 0; n <= 300; n++ {
+		ns = append(ns, strconv.Itoa(n))
+	}
+	ns = append(ns, "511", "512", "1023", "1024", "1025", "4096", "65536")
+	for i := 0; i < len(u0); i += 7 {
+		for _, n := range ns {
+			for _, f := range []string{"%" + n + "v", "%." + n + "v", "%-" + n + "d", "%0" + n + "x", "%" + n + "." + n + "s", "%." + n + "f", "%+" + n + "q", "%#." + n + "x"} {
+				jobs = append(jobs, job{f, i})
 			}
 		}
 	}
